@@ -1013,6 +1013,8 @@ def run(ctx):
         __import__("importlib").import_module("props.C11_seq").run_part(ctx)
     except RuntimeError as ex:
         ctx.broken.append("sequence part: %s" % ex)
+    # proof + tie for that mechanism (the caches of the XObjects the factory recycles): props/C11_cache.py
+    __import__("importlib").import_module("props.C11_cache").run_part(ctx)
     ctx.notes["stripspace_failures"] = len(wbad)
     ctx.notes["oracle_failures"] = len(orc)
     ctx.notes["stylesheet_failures"] = len(sbad)
@@ -1022,6 +1024,8 @@ def run(ctx):
 def replay(ctx, path):
     if any(l.startswith("#SEQ ") for l in open(path)):
         return __import__("importlib").import_module("props.C11_seq").replay(ctx, path)
+    if any(l.startswith("#XOCACHE ") for l in open(path)):
+        return __import__("importlib").import_module("props.C11_cache").replay(ctx, path)
     core.build_lib("plain")
     impl, ok_h, hlog = core.build_harness("xp", "plain")
     lines = [l.rstrip("\n") for l in open(path) if l.strip() and not l.startswith("#")]
